@@ -190,7 +190,7 @@ def check_property(prop, tier, seed, jobs, write_evidence=True):
             break
         if unproved and not handled:
             ids = [o["id"] for o in unproved]
-            if unconfirmed and any(i in baseline for i in ids):
+            if unconfirmed and (any(i in baseline for i in ids) or any(x.get("finite") for x in unconfirmed)):
                 violations.append({"contract": cname, "case": r["case"], "failed": [], "args": unconfirmed[0]["args"],
                                    "how": "solver model not confirmed natively", "no_input": True, "unproved": ids,
                                    "solver": [o.get("detail") for o in unproved]})
@@ -289,6 +289,19 @@ def replay(path):
         importlib.import_module(m)
     C = REGISTRY[rec["contract"]]
     nargs = N.decode(rec["args"])
+    if "finite_obligation" in nargs:
+        oid = nargs["finite_obligation"]
+        print("replaying obligation %s of %s against the real code" % (oid, rec["contract"]))
+        if C.finite_native is None:
+            print("no native replay for this obligation; verifier output: %s" % rec.get("outcome"))
+            return 0
+        bad, text = C.finite_native(oid)
+        print(text)
+        if bad:
+            print("VIOLATION property=%s replay=%s" % (rec["property"], path))
+            return 1
+        print("holds natively")
+        return 0
     print("replaying %s on %s" % (rec["contract"], {k: (v if not hasattr(v, "tolist") else v.tolist()) for k, v in nargs.items()}))
     if not N.pre_holds_native(C, nargs):
         print("precondition does not hold on this input")
